@@ -313,6 +313,27 @@ def impl(t, case):
     return impl_case(t, case)
 
 
+def decoys(text):
+    """Texts a careless cache key could confuse with `text` (white space inside string literals changed, white space runs
+    collapsed / removed, stripped, case folded).  They are compiled BEFORE `text`, so that the cache is populated with
+    near misses when `text` itself is compiled: the result for `text` must not depend on them (seeded change C17-4)."""
+    out = []
+    inside, dbl, tab, one = False, "", "", ""
+    for i, ch in enumerate(text):
+        if ch == '"' and (i == 0 or text[i - 1] != "\\"):
+            inside = not inside
+        if inside and ch == " ":
+            dbl, tab = dbl + "  ", tab + "\t"
+            one += "" if one.endswith(" ") else " "
+        else:
+            dbl, tab, one = dbl + ch, tab + ch, one + ch
+    for d in (dbl, tab, one, " ".join(text.split()), "".join(text.split()), text.strip(), text + " ", " " + text, text.lower(),
+              text.upper()):
+        if d != text and d not in out:
+            out.append(d)
+    return out
+
+
 def impl_case(t, case):
     import pyoak.match.xpath as X
     from pyoak import config
@@ -326,6 +347,11 @@ def impl_case(t, case):
     text = t.args[1].decode("utf-8", errors="surrogateescape")
     if t.name == "Xp":
         X._AST_XPATH_CACHE.clear()
+        for d in decoys(text):
+            try:
+                X.ASTXpath(d)
+            except Exception:  # noqa: BLE001
+                pass
 
         def one():
             try:
@@ -347,6 +373,11 @@ def impl_case(t, case):
     v = kind_of_message(msg)
     if ok != (v.name == "Ok"):
         v = Con("Inconsistent", ok, msg[:40])
+    for d in decoys(text):
+        try:
+            P.NodeMatcher.from_pattern(d)
+        except Exception:  # noqa: BLE001
+            pass
     m1, msg1 = P.NodeMatcher.from_pattern(text)
     f1 = kind_of_message(msg1)
     if (m1 is not None) != (f1.name == "Ok"):
